@@ -123,7 +123,9 @@ def compile_string(script: str) -> CompilerOutput:
     Returns:
         CompilerOutput: The Compiler Output
     """
-    decoded_program = base64.b64decode(script).decode("utf-8")
+    # "utf-8-sig": a program text that starts with a byte order mark is read as the file loader
+    # reads it (the mark is not part of the program)
+    decoded_program = base64.b64decode(script).decode("utf-8-sig")
     temp_name = "temp_program"
     spec = importlib.util.spec_from_loader(temp_name, loader=None)
     module = importlib.util.module_from_spec(spec)
